@@ -445,6 +445,16 @@ fn update_internal(_: &UpdaterLockState, channel: Option<&str>) -> anyhow::Resul
             path: output_path,
             number: patch.number,
         };
+        // The ban was checked before the download, in another critical section. A boot
+        // failure of this patch may have been reported since (from another thread), so
+        // check again now that we hold the lock: a banned patch must never be installed.
+        if state.is_known_bad_patch(patch.number) {
+            shorebird_info!(
+                "Patch {} failed to boot while it was being downloaded, skipping.",
+                patch.number
+            );
+            return Ok(UpdateStatus::UpdateIsBadPatch);
+        }
         // Move/state update should be "atomic" (it isn't today).
         state.install_patch(&patch_info, &patch.hash, patch.hash_signature.as_deref())?;
         shorebird_info!(
